@@ -1,6 +1,7 @@
 import AtreeProofs.WorldCodec.Bytes
 import AtreeProofs.WorldCodec.OwnId
 import AtreeProofs.CommitLemmas2
+import AtreeProofs.World.NoCreated
 /-
   Histories of requests run against the storage state machine with the byte codec: the storage shows
   exactly the CODEC-LEVEL content `World.toCodec` of the world (write set, cache, ledger), for every
@@ -17,11 +18,11 @@ def DeepSteps (D : SlabID → DigestFn 4) : Prop :=
 
 /-- A HISTORY OF REQUESTS RUN AGAINST THE STORAGE (byte codec): every storage call of every request is
     applied to the storage state machine, a stored slab having the codec-level content it has in the
-    world after the request; commits of either kind, with any fault plan, anywhere.  `newCreated = []`:
-    the request created no large-value slab (valid values fit their slot: `WValOk`). -/
+    world after the request; commits of either kind, with any fault plan, anywhere.  (A request creates
+    no large-value slab — valid values fit their slot: `WC.Req.newCreated_nil`.) -/
 inductive HistB (D : SlabID → DigestFn 4) : World → Ctx → St Slab (SlabID × Bytes) → Prop
   | new (T addr : Nat) (hT : legalThreshold T = true) : HistB D { T := T, addr := addr } ⟨0, [], []⟩ St.init
-  | req {w cx s w' cx'} : HistB D w cx s → Req D w cx w' cx' → newCreated cx cx' = [] →
+  | req {w cx s w' cx'} : HistB D w cx s → Req D w cx w' cx' →
       HistB D w' cx' (WE2E.applyEffs worldCodec s w'.toCodec (newEffects cx cx'))
   | commit {w cx s} (kind : CommitKind) (faults : List Nat) (mo dlo : List SlabID) : HistB D w cx s →
       HistB D w cx (St.step worldCodec s (.commit kind faults mo dlo)).1
@@ -30,7 +31,7 @@ theorem HistB.hist {D : SlabID → DigestFn 4} {w : World} {cx : Ctx} {s : St Sl
     (h : HistB D w cx s) : C09W.Hist D w cx := by
   induction h with
   | new T addr hT => exact .new T addr hT
-  | req _ r _ ih => exact r.hist ih
+  | req _ r ih => exact r.hist ih
   | commit _ _ _ _ _ ih => exact ih
 
 theorem toCodec_empty (T addr : Nat) (id : SlabID) : ({ T := T, addr := addr } : World).toCodec id = none := rfl
@@ -52,10 +53,10 @@ theorem histB_rep {D : SlabID → DigestFn 4} (hdeep : DeepSteps D) {w : World} 
       simp [St.view, St.init, St.fresh]
     · intro id b hb
       simp [St.init, St.fresh, AList.find?] at hb
-  | @req w cx s w' cx' hb r hcr ih =>
+  | @req w cx s w' cx' hb r ih =>
     obtain ⟨h1, h2, h3, h4⟩ := ih
     have hsh := r.shallow hb.hist
-    rw [hcr] at hsh
+    rw [r.newCreated_nil] at hsh
     have hcomp := complete_toCodec hsh (hdeep hb.hist r)
     refine ⟨rep_step _ _ _ _ _ h1 hcomp, applyEffs_keeps_inv _ worldCodec_roundTrip _ _ _ h2, ?_, ?_⟩
     · rw [WE2E.find?_deltas_applyEffs_undef]
